@@ -1,5 +1,4 @@
 package main
 
 func genRoutes() {}
-func genSync()   {}
 func genSites()  {}
